@@ -10,7 +10,7 @@ from symx.values import SymBool
 from . import common
 
 TP = None
-STYLES = [("", "", False), ("  ", " # c", False), ("\t", "  # note: x", False), ("      ", "", False),
+STYLES = [("", "", False), ("  ", " # c", False), ("\t", "  # note: x", False), ("      ", " # it's \"so\": done:", False),
           ("  ", "", True),      # (indentation of % lines, trailing comment, header continued over two lines with a backslash)
           ("", "", "paren"),     # no blank between the keyword and a parenthesised condition: % if(c(1)):
           ("", " # c", "literal")]   # the condition carries a string literal with ':#' and ': #' in it, and a comment follows
